@@ -8,6 +8,7 @@ Lemmas.Rest — the three remaining error-bound clauses.
 import TFV.Lemmas.PowiBound
 import TFV.Lemmas.SqrtBound
 import TFV.Lemmas.DivInv
+import Mathlib.Analysis.SpecialFunctions.Pow.Real
 
 set_option exponentiation.threshold 4000
 
@@ -727,3 +728,589 @@ theorem div_tf_val_3u2 {x : TwoFloat} {c : F64} (hx : x.Valid) (hwx : x.WF) (hc 
     hwc.repI.ulp_dvd rfl hQ hres hexp' (by omega) hx.two_mul_abs_lo_le rfl rfl
 
 end F64
+
+namespace F64
+
+/-! ## 3. the correctly rounded cube root -/
+
+/-- the bisection of `icbrt` keeps the invariant `acc³ ≤ m < (acc + 2^k)³` -/
+theorem icbrt_go_spec (m : Nat) : ∀ k acc : Nat, acc ^ 3 ≤ m → m < (acc + 2 ^ k) ^ 3 →
+    (icbrt.go m k acc) ^ 3 ≤ m ∧ m < (icbrt.go m k acc + 1) ^ 3 := by
+  intro k
+  induction k with
+  | zero =>
+    intro acc h1 h2
+    simp only [icbrt.go]
+    exact ⟨h1, by simpa using h2⟩
+  | succ k ih =>
+    intro acc h1 h2
+    simp only [icbrt.go]
+    by_cases hc : (acc + 2 ^ k) * (acc + 2 ^ k) * (acc + 2 ^ k) ≤ m
+    · rw [if_pos hc]
+      apply ih
+      · calc (acc + 2 ^ k) ^ 3 = (acc + 2 ^ k) * (acc + 2 ^ k) * (acc + 2 ^ k) := by ring
+          _ ≤ m := hc
+      · have : acc + 2 ^ k + 2 ^ k = acc + 2 ^ (k + 1) := by rw [pow_succ]; ring
+        rw [this]; exact h2
+    · rw [if_neg hc]
+      apply ih _ h1
+      have : (acc + 2 ^ k) ^ 3 = (acc + 2 ^ k) * (acc + 2 ^ k) * (acc + 2 ^ k) := by ring
+      rw [this]; omega
+
+/-- `icbrt m` is the floor of the cube root -/
+theorem icbrt_spec (m : Nat) : (icbrt m) ^ 3 ≤ m ∧ m < (icbrt m + 1) ^ 3 := by
+  unfold icbrt
+  apply icbrt_go_spec m _ 0 (by simp)
+  rw [Nat.zero_add, ← pow_mul]
+  rcases Nat.eq_zero_or_pos m with h0 | hpos
+  · subst h0; positivity
+  · have h1 : m < 2 ^ (Nat.log2 m + 1) := Nat.lt_log2_self
+    refine lt_of_lt_of_le h1 (Nat.pow_le_pow_right (by norm_num) ?_)
+    have := Nat.div_add_mod (Nat.log2 m) 3
+    have := Nat.mod_lt (Nat.log2 m) (show 3 > 0 by norm_num)
+    omega
+
+
+/-- the rounding core of `F64.cbrt`: nearest-even 53-bit rounding of `∛m` -/
+def cbrtRound (m : Nat) : Nat :=
+  let r := icbrt m
+  let e := Nat.log2 r - 52
+  let q := r / 2 ^ e
+  let h := (2 * q + 1) * 2 ^ (e - 1)
+  let q' := if m > h * h * h then q + 1 else if m < h * h * h then q else (if q % 2 = 0 then q else q + 1)
+  q' * 2 ^ e
+
+theorem cbrt_fin (s : Bool) (n : Nat) (hn : n ≠ 0) :
+    F64.cbrt (fin s n) = fin s (cbrtRound (n * 2 ^ 2148)) := by
+  rw [F64.cbrt, if_neg hn, pow_core_eq 2 2148]
+  rfl
+
+
+/-- the rounding step of `F64.cbrt` on the integer `m = n·2^2148` -/
+theorem cbrt_round_nat (m : Nat) (hm : 2 ^ 159 ≤ m) :
+    ∃ e0 : Nat, Nat.log2 (icbrt m) - 52 = e0 + 1 ∧
+      (∀ q' : Nat,
+        q' = (if m > ((2 * (icbrt m / 2 ^ (e0 + 1)) + 1) * 2 ^ e0) * ((2 * (icbrt m / 2 ^ (e0 + 1)) + 1) * 2 ^ e0)
+                  * ((2 * (icbrt m / 2 ^ (e0 + 1)) + 1) * 2 ^ e0)
+              then icbrt m / 2 ^ (e0 + 1) + 1
+              else if m < ((2 * (icbrt m / 2 ^ (e0 + 1)) + 1) * 2 ^ e0) * ((2 * (icbrt m / 2 ^ (e0 + 1)) + 1) * 2 ^ e0)
+                  * ((2 * (icbrt m / 2 ^ (e0 + 1)) + 1) * 2 ^ e0)
+              then icbrt m / 2 ^ (e0 + 1)
+              else (if (icbrt m / 2 ^ (e0 + 1)) % 2 = 0 then icbrt m / 2 ^ (e0 + 1)
+                    else icbrt m / 2 ^ (e0 + 1) + 1)) →
+        2 ^ 52 ≤ q' ∧ q' ≤ 2 ^ 53 ∧ (2 ^ 53 * 2 ^ e0) ^ 3 ≤ m ∧
+          ((2 * q' - 1) * 2 ^ e0) ^ 3 ≤ m ∧ m ≤ ((2 * q' + 1) * 2 ^ e0) ^ 3) := by
+  obtain ⟨hs1, hs2⟩ := icbrt_spec m
+  have hr53 : 2 ^ 53 ≤ icbrt m := by
+    by_contra hc
+    have h1 : icbrt m + 1 ≤ 2 ^ 53 := by omega
+    have h2 : (icbrt m + 1) ^ 3 ≤ (2 ^ 53) ^ 3 := Nat.pow_le_pow_left h1 3
+    have h3 : ((2 : Nat) ^ 53) ^ 3 = 2 ^ 159 := by norm_num
+    omega
+  obtain ⟨hb1, hb2⟩ := log2_sub_spec (n := icbrt m) (by omega)
+  have he1 : 1 ≤ Nat.log2 (icbrt m) - 52 := le_log2_sub (by
+    calc 2 ^ 52 * 2 ^ 1 = 2 ^ 53 := by norm_num
+      _ ≤ icbrt m := hr53)
+  obtain ⟨e0, he0⟩ : ∃ e0, Nat.log2 (icbrt m) - 52 = e0 + 1 := ⟨Nat.log2 (icbrt m) - 52 - 1, by omega⟩
+  refine ⟨e0, he0, ?_⟩
+  rw [he0] at hb1 hb2
+  generalize icbrt m = r at *
+  have hE : 2 ^ (e0 + 1) = 2 * 2 ^ e0 := by rw [Nat.pow_succ, Nat.mul_comm]
+  have hF : 0 < 2 ^ e0 := Nat.two_pow_pos e0
+  rw [hE] at hb1 hb2 ⊢
+  generalize 2 ^ e0 = F at *
+  have hq1 : r / (2 * F) * (2 * F) ≤ r := Nat.div_mul_le_self r (2 * F)
+  have hq2 : r < (r / (2 * F) + 1) * (2 * F) := by
+    have := Nat.lt_div_mul_add (a := r) (b := 2 * F) (by omega)
+    rw [Nat.add_mul, Nat.one_mul]; exact this
+  have hq52 : 2 ^ 52 ≤ r / (2 * F) := by
+    rw [Nat.le_div_iff_mul_le (by omega)]; exact hb1
+  have hq53 : r / (2 * F) < 2 ^ 53 := by
+    rw [Nat.div_lt_iff_lt_mul (by omega)]; exact hb2
+  generalize r / (2 * F) = q at *
+  -- cubes
+  have hlow : (q * (2 * F)) ^ 3 ≤ m := le_trans (Nat.pow_le_pow_left hq1 3) hs1
+  have hup : m < ((q + 1) * (2 * F)) ^ 3 :=
+    lt_of_lt_of_le hs2 (Nat.pow_le_pow_left (by omega) 3)
+  have h53 : (2 ^ 53 * F) ^ 3 ≤ m := by
+    have : 2 ^ 53 * F ≤ r := by
+      calc 2 ^ 53 * F = 2 ^ 52 * (2 * F) := by ring
+        _ ≤ r := hb1
+    exact le_trans (Nat.pow_le_pow_left this 3) hs1
+  have eA : q * (2 * F) = (2 * q) * F := by ring
+  have eB : (q + 1) * (2 * F) = (2 * (q + 1)) * F := by ring
+  have eH : ((2 * q + 1) * F) * ((2 * q + 1) * F) * ((2 * q + 1) * F) = ((2 * q + 1) * F) ^ 3 := by ring
+  rw [eA] at hlow; rw [eB] at hup; rw [eH]
+  have mono : ∀ a b : Nat, a ≤ b → (a * F) ^ 3 ≤ (b * F) ^ 3 := fun a b h =>
+    Nat.pow_le_pow_left (Nat.mul_le_mul_right F h) 3
+  intro q' hq'
+  by_cases c1 : m > ((2 * q + 1) * F) ^ 3
+  · rw [if_pos c1] at hq'
+    subst hq'
+    refine ⟨by omega, by omega, h53, ?_, ?_⟩
+    · have : 2 * (q + 1) - 1 = 2 * q + 1 := by omega
+      rw [this]; exact Nat.le_of_lt c1
+    · exact le_trans (Nat.le_of_lt hup) (mono _ _ (by omega))
+  · rw [if_neg c1] at hq'
+    by_cases c2 : m < ((2 * q + 1) * F) ^ 3
+    · rw [if_pos c2] at hq'
+      subst hq'
+      refine ⟨by omega, by omega, h53, ?_, Nat.le_of_lt c2⟩
+      exact le_trans (mono _ _ (by omega)) hlow
+    · rw [if_neg c2] at hq'
+      have c3 : m = ((2 * q + 1) * F) ^ 3 := by omega
+      by_cases c4 : q % 2 = 0
+      · rw [if_pos c4] at hq'
+        subst hq'
+        refine ⟨by omega, by omega, h53, ?_, Nat.le_of_eq c3⟩
+        exact le_trans (mono _ _ (by omega)) hlow
+      · rw [if_neg c4] at hq'
+        subst hq'
+        refine ⟨by omega, by omega, h53, ?_, ?_⟩
+        · have : 2 * (q + 1) - 1 = 2 * q + 1 := by omega
+          rw [this]; exact Nat.le_of_eq c3.symm
+        · exact le_trans (Nat.le_of_lt hup) (mono _ _ (by omega))
+
+theorem cbrtRound_spec (m : Nat) (hm : 2 ^ 159 ≤ m) :
+    ∃ q' e0 : Nat, cbrtRound m = q' * 2 ^ (e0 + 1) ∧
+      2 ^ 52 ≤ q' ∧ q' ≤ 2 ^ 53 ∧ (2 ^ 53 * 2 ^ e0) ^ 3 ≤ m ∧
+      ((2 * q' - 1) * 2 ^ e0) ^ 3 ≤ m ∧ m ≤ ((2 * q' + 1) * 2 ^ e0) ^ 3 := by
+  obtain ⟨e0, he0, H⟩ := cbrt_round_nat m hm
+  unfold cbrtRound
+  simp only []
+  rw [he0]
+  have e1 : e0 + 1 - 1 = e0 := by omega
+  rw [e1]
+  exact ⟨_, e0, rfl, H _ rfl⟩
+
+/-- **`F64.cbrt` is correctly rounded** (integer statement): on a non-zero finite input `±n·2^-1074` the result is
+`±r`, `r = q'·2^(e+1)` with `2^52 ≤ q' ≤ 2^53` and `(r - 2^e)³ ≤ n·2^2148 ≤ (r + 2^e)³` (`2^e` is half an ulp of `r`),
+and `2^53·2^e ≤ ∛(n·2^2148)`. -/
+theorem cbrt_spec (s : Bool) (n : Nat) (hn : 0 < n) :
+    ∃ q' e0 : Nat, F64.cbrt (fin s n) = fin s (q' * 2 ^ (e0 + 1)) ∧
+      2 ^ 52 ≤ q' ∧ q' ≤ 2 ^ 53 ∧ (2 ^ 53 * 2 ^ e0) ^ 3 ≤ n * 2 ^ 2148 ∧
+      ((2 * q' - 1) * 2 ^ e0) ^ 3 ≤ n * 2 ^ 2148 ∧ n * 2 ^ 2148 ≤ ((2 * q' + 1) * 2 ^ e0) ^ 3 := by
+  have hm : 2 ^ 159 ≤ n * 2 ^ 2148 := by
+    calc 2 ^ 159 ≤ 1 * 2 ^ 2148 := by rw [Nat.one_mul]; exact Nat.pow_le_pow_right (by norm_num) (by norm_num)
+      _ ≤ n * 2 ^ 2148 := Nat.mul_le_mul_right _ hn
+  obtain ⟨q', e0, h1, h2⟩ := cbrtRound_spec (n * 2 ^ 2148) hm
+  exact ⟨q', e0, by rw [cbrt_fin s n (by omega), h1], h2⟩
+
+end F64
+
+/-! ## 4. the Newton step of `cbrt` over the reals -/
+
+namespace CbrtReal
+
+open SqrtReal
+
+theorem abs_le_of_sub {a b r : ℝ} (h : |a - b| ≤ r) : |a| ≤ |b| + r := by
+  have := abs_add_le b (a - b)
+  rw [add_sub_cancel] at this
+  linarith
+
+/-- Newton step, stage A: the two products -/
+theorem newton_A {η E X P Q : ℝ} (hη0 : 0 < η) (hη : η ≤ 1 / 2 ^ 100)
+    (hE0 : 0 ≤ E) (hE : E ≤ 1 / 2 ^ 50)
+    (hX : |X - 1| ≤ E)
+    (hP : |P - X ^ 2| ≤ 5 * η * X ^ 2)
+    (hQ : |Q - P * X| ≤ 5 * η * |P * X|) :
+    |X| ≤ 1 + E ∧ 1 - 2 * E ≤ X ^ 2 ∧
+    |P - X ^ 2| ≤ (5001 / 1000) * η ∧ |P| ≤ 10001 / 10000 ∧ |Q - P * X| ≤ (5001 / 1000) * η ∧
+    |(P - X ^ 2) * X| ≤ (5002 / 1000) * η ∧
+    |Q - 1| ≤ (30001 / 10000) * E + (10003 / 1000) * η := by
+  obtain ⟨e, rfl⟩ : ∃ e, X = 1 + e := ⟨X - 1, by ring⟩
+  have he : |e| ≤ E := by simpa using hX
+  obtain ⟨he1, he2⟩ := abs_le.1 he
+  have hηE : η * E ≤ η * (1 / 2 ^ 50) := mul_le_mul_of_nonneg_left hE hη0.le
+  have hEE : E * E ≤ E * (1 / 2 ^ 50) := mul_le_mul_of_nonneg_left hE hE0
+  have hee : e * e ≤ E * E := by
+    have := abs_mul_le' he he
+    rw [abs_mul_self] at this; exact this
+  have he0 : 0 ≤ e * e := mul_self_nonneg e
+  have hXa : |1 + e| ≤ 1 + E := by
+    have := abs_add_le (1 : ℝ) e; rw [abs_one] at this; linarith
+  have hX2u : (1 + e) ^ 2 ≤ 1 + 3 * E := by nlinarith
+  have hX2l : 1 - 2 * E ≤ (1 + e) ^ 2 := by nlinarith
+  have hd1 : |P - (1 + e) ^ 2| ≤ (5001 / 1000) * η := by
+    refine le_trans hP ?_
+    have := mul_le_mul_of_nonneg_left hX2u (show (0 : ℝ) ≤ 5 * η by positivity)
+    nlinarith
+  have hPa : |P| ≤ 10001 / 10000 := by
+    have := abs_le_of_sub hd1
+    rw [abs_of_nonneg (sq_nonneg (1 + e))] at this
+    linarith
+  have hPX : |P * (1 + e)| ≤ 10002 / 10000 := by
+    have := abs_mul_le' hPa hXa
+    nlinarith
+  have hd2 : |Q - P * (1 + e)| ≤ (5001 / 1000) * η := by
+    refine le_trans hQ ?_
+    have := mul_le_mul_of_nonneg_left hPX (show (0 : ℝ) ≤ 5 * η by positivity)
+    linarith
+  have hT : |(1 + e) ^ 3 - 1| ≤ (30001 / 10000) * E := by
+    have e1 : (1 + e) ^ 3 - 1 = e * (3 + 3 * e + e * e) := by ring
+    have h2 : |3 + 3 * e + e * e| ≤ 30001 / 10000 := by
+      rw [abs_le]; constructor <;> nlinarith
+    rw [e1]
+    have := abs_mul_le' he h2
+    linarith
+  have hd1X : |(P - (1 + e) ^ 2) * (1 + e)| ≤ (5002 / 1000) * η := by
+    have := abs_mul_le' hd1 hXa
+    nlinarith
+  refine ⟨hXa, hX2l, hd1, hPa, hd2, hd1X, ?_⟩
+  have e1 : Q - 1 = ((1 + e) ^ 3 - 1) + (P - (1 + e) ^ 2) * (1 + e) + (Q - P * (1 + e)) := by ring
+  rw [e1]
+  have t1 := abs_add_le (((1 + e) ^ 3 - 1) + (P - (1 + e) ^ 2) * (1 + e)) (Q - P * (1 + e))
+  have t2 := abs_add_le ((1 + e) ^ 3 - 1) ((P - (1 + e) ^ 2) * (1 + e))
+  linarith
+
+/-- Newton step, stage B: numerator, denominator, quotient -/
+theorem newton_B {η τ B1 X2 P Q N M K : ℝ} (hη0 : 0 < η) (hη : η ≤ 1 / 2 ^ 100) (hτ0 : 0 ≤ τ)
+    (hX2l : 99999 / 100000 ≤ X2)
+    (hd1 : |P - X2| ≤ (5001 / 1000) * η) (hPa : |P| ≤ 10001 / 10000)
+    (hQ1 : |Q - 1| ≤ B1)
+    (hN : |N - (Q - 1)| ≤ (301 / 100) * η * |Q - 1|)
+    (hM : |M - 3 * P| ≤ 2 * η * |3 * P|)
+    (hK : |N - K * M| ≤ 16 * η * |N| + τ) :
+    |N - (Q - 1)| ≤ (301 / 100) * (η * B1) ∧ |M - 3 * X2| ≤ (21004 / 1000) * η ∧
+    |N - K * M| ≤ (16002 / 1000) * (η * B1) + τ ∧ |K| ≤ (34 / 100) * (B1 + τ) := by
+  have hB0 : 0 ≤ B1 := le_trans (abs_nonneg _) hQ1
+  have hηB0 : 0 ≤ η * B1 := mul_nonneg hη0.le hB0
+  have h2 : η * B1 ≤ (1 / 2 ^ 100) * B1 := mul_le_mul_of_nonneg_right hη hB0
+  have h3 : (1 : ℝ) / 2 ^ 100 ≤ 1 / 10 ^ 9 := by norm_num
+  have h4 : (1 / 2 ^ 100) * B1 ≤ (1 / 10 ^ 9) * B1 := mul_le_mul_of_nonneg_right h3 hB0
+  have hd3 : |N - (Q - 1)| ≤ (301 / 100) * (η * B1) := by
+    refine le_trans hN ?_
+    have := mul_le_mul_of_nonneg_left hQ1 (show (0 : ℝ) ≤ (301 / 100) * η by positivity)
+    linarith
+  have hNa : |N| ≤ (10001 / 10000) * B1 := by
+    have := abs_le_of_sub hd3
+    linarith
+  have hd4 : |M - 3 * P| ≤ (6001 / 1000) * η := by
+    refine le_trans hM ?_
+    have h1 : |3 * P| ≤ 3 * (10001 / 10000) := by
+      rw [abs_mul, abs_of_pos (by norm_num : (0 : ℝ) < 3)]; linarith
+    have := mul_le_mul_of_nonneg_left h1 (show (0 : ℝ) ≤ 2 * η by positivity)
+    linarith
+  have hM3 : |M - 3 * X2| ≤ (21004 / 1000) * η := by
+    have e1 : M - 3 * X2 = (M - 3 * P) + 3 * (P - X2) := by ring
+    rw [e1]
+    have t1 := abs_add_le (M - 3 * P) (3 * (P - X2))
+    rw [abs_mul, abs_of_pos (by norm_num : (0 : ℝ) < 3)] at t1
+    linarith
+  have hMl : 29999 / 10000 ≤ M := by
+    have := (abs_le.1 hM3).1
+    linarith
+  have hd5 : |N - K * M| ≤ (16002 / 1000) * (η * B1) + τ := by
+    refine le_trans hK ?_
+    have := mul_le_mul_of_nonneg_left hNa (show (0 : ℝ) ≤ 16 * η by positivity)
+    linarith
+  refine ⟨hd3, hM3, hd5, ?_⟩
+  have h1 : |K * M| ≤ (10002 / 10000) * B1 + τ := by
+    have e1 : K * M = N - (N - K * M) := by ring
+    rw [e1]
+    have t := abs_sub (N) (N - K * M)
+    linarith
+  rw [abs_mul, abs_of_pos (by linarith : (0 : ℝ) < M)] at h1
+  have h5 : |K| * (29999 / 10000) ≤ |K| * M := mul_le_mul_of_nonneg_left hMl (abs_nonneg K)
+  linarith
+
+
+/-- Newton step, stage C: the Newton identity and the final subtraction -/
+theorem newton_C {η τ E B1 X P Q N M K X' : ℝ} (hη0 : 0 < η) (hη : η ≤ 1 / 2 ^ 100)
+    (_hτ0 : 0 ≤ τ) (hτ : τ ≤ η / 1000)
+    (hE0 : 0 ≤ E) (hE : E ≤ 1 / 2 ^ 50) (hB0 : 0 ≤ B1) (hB1 : B1 ≤ 1 / 2 ^ 48)
+    (hX : |X - 1| ≤ E) (hX2l : 1 - 2 * E ≤ X ^ 2)
+    (hd2 : |Q - P * X| ≤ (5001 / 1000) * η) (hd1X : |(P - X ^ 2) * X| ≤ (5002 / 1000) * η)
+    (hd3 : |N - (Q - 1)| ≤ (301 / 100) * (η * B1)) (hM3 : |M - 3 * X ^ 2| ≤ (21004 / 1000) * η)
+    (hd5 : |N - K * M| ≤ (16002 / 1000) * (η * B1) + τ) (hKa : |K| ≤ (34 / 100) * (B1 + τ))
+    (hX' : |X' - (X - K)| ≤ (301 / 100) * η * |X - K|) :
+    |X' - 1| ≤ (1001 / 1000) * E ^ 2 + (13 / 2) * η := by
+  obtain ⟨e, rfl⟩ : ∃ e, X = 1 + e := ⟨X - 1, by ring⟩
+  have he : |e| ≤ E := by simpa using hX
+  have hEE0 : 0 ≤ E * E := mul_nonneg hE0 hE0
+  have hee : |e * e| ≤ E * E := abs_mul_le' he he
+  have heee : |e * e * e| ≤ E * E * E := abs_mul_le' hee he
+  have hEEE : E * E * E ≤ (E * E) * (1 / 2 ^ 50) := mul_le_mul_of_nonneg_left hE hEE0
+  have hηB : η * B1 ≤ η * (1 / 2 ^ 48) := mul_le_mul_of_nonneg_left hB1 hη0.le
+  have hηB0 : 0 ≤ η * B1 := mul_nonneg hη0.le hB0
+  have key : 3 * (1 + e) ^ 2 * ((1 + e) - K - 1)
+      = 3 * (e * e) + 2 * (e * e * e) - ((P - (1 + e) ^ 2) * (1 + e) + (Q - P * (1 + e)) + (N - (Q - 1)))
+        + (N - K * M) + K * (M - 3 * (1 + e) ^ 2) := by ring
+  have hKM : |K * (M - 3 * (1 + e) ^ 2)| ≤ (34 / 100) * (B1 + τ) * ((21004 / 1000) * η) := abs_mul_le' hKa hM3
+  have hτη : τ * η ≤ (η / 1000) * η := mul_le_mul_of_nonneg_right hτ hη0.le
+  have hηη : η * η ≤ η * (1 / 2 ^ 100) := mul_le_mul_of_nonneg_left hη hη0.le
+  have h3 : (1 : ℝ) / 2 ^ 50 ≤ 1 / 10 ^ 9 := by norm_num
+  have h4 : (1 : ℝ) / 2 ^ 48 ≤ 1 / 10 ^ 9 := by norm_num
+  have hW3 : |3 * (1 + e) ^ 2 * ((1 + e) - K - 1)| ≤ (30001 / 10000) * (E * E) + (10006 / 1000) * η := by
+    rw [key]
+    have t1 := abs_add_le (3 * (e * e) + 2 * (e * e * e) - ((P - (1 + e) ^ 2) * (1 + e) + (Q - P * (1 + e)) + (N - (Q - 1)))
+        + (N - K * M)) (K * (M - 3 * (1 + e) ^ 2))
+    have t2 := abs_add_le (3 * (e * e) + 2 * (e * e * e) - ((P - (1 + e) ^ 2) * (1 + e) + (Q - P * (1 + e)) + (N - (Q - 1))))
+        (N - K * M)
+    have t3 := abs_sub (3 * (e * e) + 2 * (e * e * e)) ((P - (1 + e) ^ 2) * (1 + e) + (Q - P * (1 + e)) + (N - (Q - 1)))
+    have t4 := abs_add_le (3 * (e * e)) (2 * (e * e * e))
+    have t5 := abs_add_le ((P - (1 + e) ^ 2) * (1 + e) + (Q - P * (1 + e))) (N - (Q - 1))
+    have t6 := abs_add_le ((P - (1 + e) ^ 2) * (1 + e)) (Q - P * (1 + e))
+    rw [abs_mul (3 : ℝ), abs_of_pos (by norm_num : (0 : ℝ) < 3)] at t4
+    rw [abs_mul (2 : ℝ), abs_of_pos (by norm_num : (0 : ℝ) < 2)] at t4
+    have h10 : (1 : ℝ) / 2 ^ 100 ≤ 1 / 10 ^ 9 := by norm_num
+    nlinarith
+  -- divide by 3X²
+  have hW : |(1 + e) - K - 1| ≤ (10001 / 10000) * (E * E) + (3337 / 1000) * η := by
+    rw [abs_mul, abs_of_nonneg (by positivity : (0 : ℝ) ≤ 3 * (1 + e) ^ 2)] at hW3
+    have h5 : (3 * (1 - 2 * E)) * |(1 + e) - K - 1| ≤ 3 * (1 + e) ^ 2 * |(1 + e) - K - 1| :=
+      mul_le_mul_of_nonneg_right (by linarith) (abs_nonneg _)
+    have h6 : E * |(1 + e) - K - 1| ≤ (1 / 10 ^ 9) * |(1 + e) - K - 1| :=
+      mul_le_mul_of_nonneg_right (by linarith) (abs_nonneg _)
+    have n0 := abs_nonneg ((1 + e) - K - 1)
+    nlinarith
+  -- final subtraction
+  have hXK : |(1 + e) - K| ≤ 10001 / 10000 := by
+    have e1 : (1 + e) - K = 1 + ((1 + e) - K - 1) := by ring
+    rw [e1]
+    have := abs_add_le (1 : ℝ) ((1 + e) - K - 1)
+    rw [abs_one] at this
+    have h7 : E * E ≤ E * (1 / 2 ^ 50) := mul_le_mul_of_nonneg_left hE hE0
+    have h8 : E * (1 / 2 ^ 50) ≤ (1 / 2 ^ 50) * (1 / 2 ^ 50) := mul_le_mul_of_nonneg_right hE (by positivity)
+    have h9 : (1 : ℝ) / 2 ^ 50 * (1 / 2 ^ 50) ≤ 1 / 10 ^ 9 := by norm_num
+    have h10 : (1 : ℝ) / 2 ^ 100 ≤ 1 / 10 ^ 9 := by norm_num
+    linarith
+  have hd6 : |X' - ((1 + e) - K)| ≤ (3011 / 1000) * η := by
+    refine le_trans hX' ?_
+    have := mul_le_mul_of_nonneg_left hXK (show (0 : ℝ) ≤ (301 / 100) * η by positivity)
+    linarith
+  have e2 : X' - 1 = (X' - ((1 + e) - K)) + ((1 + e) - K - 1) := by ring
+  rw [e2]
+  have := abs_add_le (X' - ((1 + e) - K)) ((1 + e) - K - 1)
+  have e3 : E ^ 2 = E * E := by ring
+  rw [e3]
+  linarith
+
+/-- **one Newton step `x ↦ x − (x²·x − a)/(3x²)` in double-word arithmetic, normalised by the exact cube root**
+(`c = 1`): `X ≈ 1` within `E ≤ 2^-50`; `P ≈ X²`, `Q ≈ P·X` (products, `5η`), `N ≈ Q − 1` (difference, `3.01η`),
+`M ≈ 3P` (`2η`), `K ≈ N/M` (`16η`), `X' ≈ X − K` (`3.01η`).  Then `|X' − 1| ≤ 1.001E² + 6.5η`. -/
+theorem newton_norm {η τ E X P Q N M K X' : ℝ} (hη0 : 0 < η) (hη : η ≤ 1 / 2 ^ 100)
+    (hτ0 : 0 ≤ τ) (hτ : τ ≤ η / 1000)
+    (hE0 : 0 ≤ E) (hE : E ≤ 1 / 2 ^ 50)
+    (hX : |X - 1| ≤ E)
+    (hP : |P - X ^ 2| ≤ 5 * η * X ^ 2)
+    (hQ : |Q - P * X| ≤ 5 * η * |P * X|)
+    (hN : |N - (Q - 1)| ≤ (301 / 100) * η * |Q - 1|)
+    (hM : |M - 3 * P| ≤ 2 * η * |3 * P|)
+    (hK : |N - K * M| ≤ 16 * η * |N| + τ)
+    (hX' : |X' - (X - K)| ≤ (301 / 100) * η * |X - K|) :
+    |X' - 1| ≤ (1001 / 1000) * E ^ 2 + (13 / 2) * η := by
+  obtain ⟨hXa, hX2l, hd1, hPa, hd2, hd1X, hQ1⟩ := newton_A hη0 hη hE0 hE hX hP hQ
+  have hB1 : (30001 / 10000) * E + (10003 / 1000) * η ≤ 1 / 2 ^ 48 := by
+    have h1 : (1 : ℝ) / 2 ^ 100 ≤ (1 / 2 ^ 8) * (1 / 2 ^ 52) := by norm_num
+    have h3 : (1 : ℝ) / 2 ^ 50 = 4 * (1 / 2 ^ 52) := by norm_num
+    have h4 : (1 : ℝ) / 2 ^ 48 = 16 * (1 / 2 ^ 52) := by norm_num
+    have h6 : (0 : ℝ) < 1 / 2 ^ 52 := by positivity
+    linarith
+  have hB0 : 0 ≤ (30001 / 10000) * E + (10003 / 1000) * η := by positivity
+  have hX2l' : (99999 : ℝ) / 100000 ≤ X ^ 2 := by
+    have : (1 : ℝ) / 2 ^ 50 ≤ 1 / 10 ^ 9 := by norm_num
+    linarith
+  obtain ⟨hd3, hM3, hd5, hKa⟩ := newton_B (X2 := X ^ 2) hη0 hη hτ0 hX2l' hd1 hPa hQ1 hN hM hK
+  exact newton_C hη0 hη hτ0 hτ hE0 hE hB0 hB1 hX hX2l hd2 hd1X hd3 hM3 hd5 hKa hX'
+
+
+theorem mul_rel {u v w κ : ℝ} (s : ℝ) (h : |u - v| ≤ κ * |w|) : |u * s - v * s| ≤ κ * |w * s| := by
+  have e : u * s - v * s = (u - v) * s := by ring
+  rw [e, abs_mul, abs_mul]
+  have := mul_le_mul_of_nonneg_right h (abs_nonneg s)
+  linarith
+
+/-- **one Newton step on scaled values** (`U = 2^1074`; `xs, ps, … ` are the integer values `t.V` of the pairs, `C` the
+scaled cube root, `C³ = as·U²`), hypotheses in the cross-multiplied form delivered by the error bounds of the
+double-word operations -/
+theorem newton_scaled {η τ E U C xs as ps qs ns ms ks xs' : ℝ} (hη0 : 0 < η) (hη : η ≤ 1 / 2 ^ 100)
+    (hτ0 : 0 ≤ τ) (hτ : τ ≤ η / 1000)
+    (hE0 : 0 ≤ E) (hE : E ≤ 1 / 2 ^ 50) (hU : 0 < U) (hC : C ≠ 0) (hCa : C ^ 3 = as * U ^ 2)
+    (hX : |xs - C| ≤ E * |C|)
+    (hP : |ps * U - xs * xs| ≤ 5 * η * |xs * xs|)
+    (hQ : |qs * U - ps * xs| ≤ 5 * η * |ps * xs|)
+    (hN : |ns - (qs - as)| ≤ (301 / 100) * η * |qs - as|)
+    (hM : |ms * U - 3 * U * ps| ≤ 2 * η * |3 * U * ps|)
+    (hK : |ns * U - ks * ms| ≤ 16 * η * |ns * U| + τ * (|C| ^ 3 / U))
+    (hX' : |xs' - (xs - ks)| ≤ (301 / 100) * η * |xs - ks|) :
+    |xs' - C| ≤ ((1001 / 1000) * E ^ 2 + (13 / 2) * η) * |C| := by
+  have hU0 : U ≠ 0 := ne_of_gt hU
+  have h := newton_norm (X := xs / C) (P := ps * U / C ^ 2) (Q := qs * U ^ 2 / C ^ 3) (N := ns * U ^ 2 / C ^ 3)
+    (M := ms * U / C ^ 2) (K := ks / C) (X' := xs' / C) hη0 hη hτ0 hτ hE0 hE
+    (by
+      have := mul_rel (1 / C) hX
+      have e1 : xs * (1 / C) - C * (1 / C) = xs / C - 1 := by field_simp
+      have e2 : |C * (1 / C)| = 1 := by rw [mul_one_div_cancel hC, abs_one]
+      rw [e1, e2, mul_one] at this
+      exact this)
+    (by
+      have := mul_rel (1 / C ^ 2) hP
+      have e1 : ps * U * (1 / C ^ 2) - xs * xs * (1 / C ^ 2) = ps * U / C ^ 2 - (xs / C) ^ 2 := by
+        field_simp
+      have e2 : |xs * xs * (1 / C ^ 2)| = (xs / C) ^ 2 := by
+        have e3 : xs * xs * (1 / C ^ 2) = (xs / C) ^ 2 := by field_simp
+        rw [e3, abs_of_nonneg (sq_nonneg _)]
+      rw [e1, e2] at this
+      exact this)
+    (by
+      have := mul_rel (U / C ^ 3) hQ
+      have e1 : qs * U * (U / C ^ 3) - ps * xs * (U / C ^ 3) = qs * U ^ 2 / C ^ 3 - ps * U / C ^ 2 * (xs / C) := by
+        field_simp
+      have e2 : ps * xs * (U / C ^ 3) = ps * U / C ^ 2 * (xs / C) := by field_simp
+      rw [e1, e2] at this
+      exact this)
+    (by
+      have := mul_rel (U ^ 2 / C ^ 3) hN
+      have e3 : (qs - as) * (U ^ 2 / C ^ 3) = qs * U ^ 2 / C ^ 3 - 1 := by
+        have : as * U ^ 2 / C ^ 3 = 1 := by rw [← hCa]; field_simp
+        rw [sub_mul, mul_div_assoc', mul_div_assoc', this]
+      have e1 : ns * (U ^ 2 / C ^ 3) - (qs - as) * (U ^ 2 / C ^ 3) = ns * U ^ 2 / C ^ 3 - (qs * U ^ 2 / C ^ 3 - 1) := by
+        rw [e3]; ring
+      rw [e1, e3] at this
+      exact this)
+    (by
+      have := mul_rel (1 / C ^ 2) hM
+      have e2 : 3 * U * ps * (1 / C ^ 2) = 3 * (ps * U / C ^ 2) := by field_simp
+      have e1 : ms * U * (1 / C ^ 2) - 3 * U * ps * (1 / C ^ 2) = ms * U / C ^ 2 - 3 * (ps * U / C ^ 2) := by
+        rw [e2]; ring
+      rw [e1, e2] at this
+      exact this)
+    (by
+      have hCp : 0 < |C| := abs_pos.2 hC
+      have e2 : ns * U * (U / C ^ 3) = ns * U ^ 2 / C ^ 3 := by field_simp
+      have e1 : ns * U ^ 2 / C ^ 3 - ks / C * (ms * U / C ^ 2) = (ns * U - ks * ms) * (U / C ^ 3) := by
+        field_simp
+      have e3 : |U / C ^ 3| = U / |C| ^ 3 := by rw [abs_div, abs_of_pos hU, abs_pow]
+      rw [e1, abs_mul, ← e2, abs_mul, e3]
+      have := mul_le_mul_of_nonneg_right hK (show 0 ≤ U / |C| ^ 3 by positivity)
+      have e4 : τ * (|C| ^ 3 / U) * (U / |C| ^ 3) = τ := by field_simp
+      nlinarith [this, e4])
+    (by
+      have := mul_rel (1 / C) hX'
+      have e2 : (xs - ks) * (1 / C) = xs / C - ks / C := by field_simp
+      have e1 : xs' * (1 / C) - (xs - ks) * (1 / C) = xs' / C - (xs / C - ks / C) := by
+        rw [e2]; ring
+      rw [e1, e2] at this
+      exact this)
+  have hCp : 0 < |C| := abs_pos.2 hC
+  have e : xs' - C = (xs' / C - 1) * C := by field_simp
+  rw [e, abs_mul]
+  exact mul_le_mul_of_nonneg_right h hCp.le
+
+end CbrtReal
+
+/-! ## 5. the double-word operations over the reals -/
+
+namespace CbrtBound
+
+open F64 TwoFloat
+
+
+/-- `TwoFloat * TwoFloat` over the reals -/
+theorem mul_tt_real {x y : TwoFloat} (hvx : x.Valid) (hwx : x.WF) (hvy : y.Valid) (hwy : y.WF)
+    (hx : 2 ^ 53 ≤ |x.hi.toInt|) (hy : 2 ^ 53 ≤ |y.hi.toInt|)
+    (hlo : 2 ^ 1247 ≤ |x.hi.toInt * y.hi.toInt|) (hhi : |x.hi.toInt * y.hi.toInt| < 2 ^ 3169) :
+    (arithmetic.impl_Mul_rTwoFloat_for_rTwoFloat.mul x y).Valid ∧
+    (arithmetic.impl_Mul_rTwoFloat_for_rTwoFloat.mul x y).WF ∧
+    |((arithmetic.impl_Mul_rTwoFloat_for_rTwoFloat.mul x y).V : ℝ) * 2 ^ 1074 - (x.V : ℝ) * (y.V : ℝ)|
+      ≤ 5 * (1 / 2 ^ 106) * |(x.V : ℝ) * (y.V : ℝ)| := by
+  obtain ⟨hV, hb⟩ := mul_tt_bound_5u2_wide hvx hwx hvy hwy hx hy hlo hhi
+  refine ⟨hV, mul_tt_WF x y, ?_⟩
+  have h2 : |((arithmetic.impl_Mul_rTwoFloat_for_rTwoFloat.mul x y).V : ℝ) * ((unit : Nat) : ℝ)
+      - (x.V : ℝ) * (y.V : ℝ)| * 2 ^ 106 ≤ 5 * |(x.V : ℝ) * (y.V : ℝ)| := by exact_mod_cast hb
+  rw [unit_real] at h2
+  have hp : (0 : ℝ) < 2 ^ 106 := by positivity
+  rw [show (5 : ℝ) * (1 / 2 ^ 106) * |(x.V : ℝ) * (y.V : ℝ)| = 5 * |(x.V : ℝ) * (y.V : ℝ)| / 2 ^ 106 by ring,
+    le_div_iff₀ hp]
+  exact h2
+
+/-- `TwoFloat - TwoFloat` over the reals (`3u² + 13u³ ≤ 3.01u²`) -/
+theorem sub_tt_real {x y : TwoFloat} (hvx : x.Valid) (hwx : x.WF) (hvy : y.Valid) (hwy : y.WF)
+    (bx : |x.hi.toInt| < 2 ^ 2094) (by' : |y.hi.toInt| < 2 ^ 2094) :
+    (arithmetic.impl_Sub_rTwoFloat_for_rTwoFloat.sub x y).Valid ∧
+    (arithmetic.impl_Sub_rTwoFloat_for_rTwoFloat.sub x y).WF ∧
+    |((arithmetic.impl_Sub_rTwoFloat_for_rTwoFloat.sub x y).V : ℝ) - ((x.V : ℝ) - (y.V : ℝ))|
+      ≤ (301 / 100) * (1 / 2 ^ 106) * |(x.V : ℝ) - (y.V : ℝ)| := by
+  have bx' : x.hi.toInt.natAbs < 2 ^ 2094 := by
+    have : ((x.hi.toInt.natAbs : Nat) : Int) < ((2 ^ 2094 : Nat) : Int) := by
+      rw [Int.natCast_natAbs]; push_cast; exact bx
+    exact_mod_cast this
+  have by'' : y.hi.toInt.natAbs < 2 ^ 2094 := by
+    have : ((y.hi.toInt.natAbs : Nat) : Int) < ((2 ^ 2094 : Nat) : Int) := by
+      rw [Int.natCast_natAbs]; push_cast; exact by'
+    exact_mod_cast this
+  obtain ⟨hV, hb⟩ := sub_tt_bound hvx hwx hvy hwy bx' by''
+  refine ⟨hV, sub_tt_WF x y, ?_⟩
+  have h2 : |((arithmetic.impl_Sub_rTwoFloat_for_rTwoFloat.sub x y).V : ℝ) - ((x.V : ℝ) - (y.V : ℝ))| * 2 ^ 159
+      ≤ (3 * 2 ^ 53 + 13) * |(x.V : ℝ) - (y.V : ℝ)| := by exact_mod_cast hb
+  have hp : (0 : ℝ) < 2 ^ 159 := by positivity
+  have n0 := abs_nonneg ((x.V : ℝ) - (y.V : ℝ))
+  have h3 : |((arithmetic.impl_Sub_rTwoFloat_for_rTwoFloat.sub x y).V : ℝ) - ((x.V : ℝ) - (y.V : ℝ))|
+      ≤ (3 * 2 ^ 53 + 13) * |(x.V : ℝ) - (y.V : ℝ)| / 2 ^ 159 := by
+    rw [le_div_iff₀ hp]; exact h2
+  refine le_trans h3 ?_
+  rw [div_le_iff₀ hp]
+  have : ((3 : ℝ) * 2 ^ 53 + 13) ≤ (301 / 100) * (1 / 2 ^ 106) * 2 ^ 159 := by norm_num
+  nlinarith
+
+/-- `f64 * TwoFloat` over the reals -/
+theorem mul_ft_real {x : TwoFloat} {f : F64} (hv : x.Valid) (hw : x.WF)
+    (hff : f.is_finite = true) (hwf : f.WF)
+    (hr : (2 : Int) ^ 1188 ≤ |x.hi.toInt * f.toInt| ∧ |x.hi.toInt * f.toInt| < (2 : Int) ^ 3169) :
+    (arithmetic.impl_Mul_rTwoFloat_for_rf64.mul f x).Valid ∧
+    (arithmetic.impl_Mul_rTwoFloat_for_rf64.mul f x).WF ∧
+    |((arithmetic.impl_Mul_rTwoFloat_for_rf64.mul f x).V : ℝ) * 2 ^ 1074 - (f.toInt : ℝ) * (x.V : ℝ)|
+      ≤ 2 * (1 / 2 ^ 106) * |(f.toInt : ℝ) * (x.V : ℝ)| := by
+  obtain ⟨hV, hb⟩ := mul_ft_bound hv hw hff hwf (Or.inr hr)
+  refine ⟨hV, fast_two_sum_WF _ _, ?_⟩
+  have h2 : |((arithmetic.impl_Mul_rTwoFloat_for_rf64.mul f x).V : ℝ) * ((unit : Nat) : ℝ)
+      - (f.toInt : ℝ) * (x.V : ℝ)| * 2 ^ 105 ≤ |(f.toInt : ℝ) * (x.V : ℝ)| := by exact_mod_cast hb
+  rw [unit_real] at h2
+  have hp : (0 : ℝ) < 2 ^ 105 := by positivity
+  have h3 : |((arithmetic.impl_Mul_rTwoFloat_for_rf64.mul f x).V : ℝ) * 2 ^ 1074 - (f.toInt : ℝ) * (x.V : ℝ)|
+      ≤ |(f.toInt : ℝ) * (x.V : ℝ)| / 2 ^ 105 := by
+    rw [le_div_iff₀ hp]; exact h2
+  refine le_trans h3 (le_of_eq ?_)
+  rw [show (2 : ℝ) ^ 106 = 2 * 2 ^ 105 by norm_num]
+  field_simp
+
+/-- `TwoFloat / TwoFloat` over the reals -/
+theorem div_tt_real {a b : TwoFloat} (ha : a.Valid) (hwa : a.WF) (hb : b.Valid)
+    (R : DivRange a.hi.toInt b.hi.toInt)
+    (hB : 2 ^ 110 * |b.hi.toInt| ≤ |a.hi.toInt * (unit : Int)|) (hA : 2 ^ 110 ≤ |a.hi.toInt|) :
+    (arithmetic.impl_Div_rTwoFloat_for_rTwoFloat.div a b).Valid ∧
+    (arithmetic.impl_Div_rTwoFloat_for_rTwoFloat.div a b).WF ∧
+    |(a.V : ℝ) * 2 ^ 1074 - ((arithmetic.impl_Div_rTwoFloat_for_rTwoFloat.div a b).V : ℝ) * (b.V : ℝ)|
+      ≤ 16 * (1 / 2 ^ 106) * |(a.V : ℝ) * 2 ^ 1074| := by
+  obtain ⟨hV, hW⟩ := div_tt_valid_of_range ha hwa hb R
+  refine ⟨hV, hW, ?_⟩
+  have hb' := div_tt_acc ha hwa hb R hB hA
+  have h2 : 2 ^ 102 * |(a.V : ℝ) * ((unit : Nat) : ℝ)
+      - ((arithmetic.impl_Div_rTwoFloat_for_rTwoFloat.div a b).V : ℝ) * (b.V : ℝ)|
+      ≤ |(a.V : ℝ) * ((unit : Nat) : ℝ)| := by exact_mod_cast hb'
+  rw [unit_real] at h2
+  have hp : (0 : ℝ) < 2 ^ 102 := by positivity
+  have h3 : |(a.V : ℝ) * 2 ^ 1074 - ((arithmetic.impl_Div_rTwoFloat_for_rTwoFloat.div a b).V : ℝ) * (b.V : ℝ)|
+      ≤ |(a.V : ℝ) * 2 ^ 1074| / 2 ^ 102 := by
+    rw [le_div_iff₀ hp, mul_comm]; exact h2
+  refine le_trans h3 (le_of_eq ?_)
+  rw [show (2 : ℝ) ^ 106 = 16 * 2 ^ 102 by norm_num]
+  field_simp
+
+/-- high word against value, over the reals -/
+theorem hi_real {t : TwoFloat} (hv : t.Valid) :
+    (1 - 1 / 2 ^ 53) * |(t.hi.toInt : ℝ)| ≤ |(t.V : ℝ)| ∧ |(t.V : ℝ)| ≤ (1 + 1 / 2 ^ 53) * |(t.hi.toInt : ℝ)| := by
+  obtain ⟨h1, h2⟩ := PowiBound.hi_bounds hv
+  have c1 : (2 ^ 53 - 1) * |(t.hi.toInt : ℝ)| ≤ 2 ^ 53 * |(t.V : ℝ)| := by exact_mod_cast h1
+  have c2 : 2 ^ 53 * |(t.V : ℝ)| ≤ (2 ^ 53 + 1) * |(t.hi.toInt : ℝ)| := by exact_mod_cast h2
+  constructor
+  · have : (1 - 1 / 2 ^ 53) * |(t.hi.toInt : ℝ)| = (2 ^ 53 - 1) * |(t.hi.toInt : ℝ)| / 2 ^ 53 := by
+      field_simp
+    rw [this, div_le_iff₀ (by positivity)]; linarith
+  · have : (1 + 1 / 2 ^ 53) * |(t.hi.toInt : ℝ)| = (2 ^ 53 + 1) * |(t.hi.toInt : ℝ)| / 2 ^ 53 := by
+      field_simp
+    rw [this, le_div_iff₀ (by positivity)]; linarith
+
+end CbrtBound
